@@ -152,7 +152,9 @@ def aggregate(prop, a, reports, jobs, seed, wall):
     summary = {}
     for oid, obs in obligations.items():
         sts = {o["status"] for o in obs}
-        if "refuted" in sts:
+        if sts == {"not_lifted"} or (sts - {"discharged"}) == {"not_lifted"}:
+            st = "not_lifted"
+        elif "refuted" in sts:
             st = "refuted"
         elif "fault" in sts or "vacuous" in sts:
             st = "fault"
@@ -251,7 +253,10 @@ def aggregate(prop, a, reports, jobs, seed, wall):
         with open(exp_file, "w") as f:
             json.dump(expected, f, indent=0, sort_keys=True)
     elif not a.only and not a.case:
-        missing = sorted(set(expected.get(key, [])) - set(obligations))
+        gone = {rep["helper_missing"] for rep in reports if rep.get("helper_missing")}
+        for g in sorted(gone):
+            print(f"NOTE: {prop}: helper {g} no longer exists under that name: its lemma contract is not applicable (the public-level contracts run whatever replaced it)")
+        missing = sorted(o for o in set(expected.get(key, [])) - set(obligations) if not any(o.startswith(f"{prop}/{g}/") for g in gone))
         if key not in expected:
             faults.append(f"no expected-obligation list recorded for {key}")
         for mi in missing[:20]:
@@ -312,6 +317,9 @@ def aggregate(prop, a, reports, jobs, seed, wall):
     n_ob = len(summary)
     n_dis = sum(1 for s in summary.values() if s == "discharged")
     n_unknown = sum(1 for s in summary.values() if s == "unknown")
+    not_lifted = sorted(oid for oid, s in summary.items() if s == "not_lifted")
+    for oid in not_lifted:
+        print(f"NOTE: {oid}: loop independence not established ({obligations[oid][0].get('note')}) -- the element-wise obligations through it are bounded stand-ins only")
     n_known = len({oid for oid, *_ in known_hits})
     if a.verbose or faults or unsupported:
         for f in faults[:30]:
@@ -386,7 +394,8 @@ def write_evidence(prop, a, seed, summary, obligations, reports, known_hits, vio
         "trusted_base": TRUSTED_BASE,
         "explanation": "contract-based deductive verification: obligations generated from the real source on every run by symbolic execution of every path; 'obligations/discharged' count only unbounded obligations (symbolic integers, loop-free or schematic); bounded_obligations are stand-ins with a stated bound and are not counted as proved; an obligation excused by a committed known finding is counted as discharged only outside the excused region",
         "bounded_obligations": {"count": len(bounded_ids), "discharged": sum(1 for o in bounded_ids if summary[o] == "discharged" or o in known_ids), "bounds": sorted({str(obligations[o][0]["bounded"]) for o in bounded_ids}),
-                                "lifted_to_every_length_by_loop_independence": sum(1 for o in bounded_ids if obligations[o][0].get("lifts"))},
+                                "lifted_to_every_length_by_loop_independence": 0 if any(st == "not_lifted" for st in summary.values()) else sum(1 for o in bounded_ids if obligations[o][0].get("lifts")),
+                                "loop_independence_not_established": sorted(o for o, st in summary.items() if st == "not_lifted")},
         "known_findings": sorted({f"{e['obligation']} :: {e['what']}" for _, e, _, _ in known_hits}),
         "functions_under_contract": funcs,
         "functions_inlined": inlined,
